@@ -33,6 +33,15 @@ impl Wakes {
     }
 }
 
+struct Noop;
+impl Wake for Noop {
+    fn wake(self: Arc<Self>) {}
+}
+
+pub fn noop_waker() -> Waker {
+    Waker::from(Arc::new(Noop))
+}
+
 thread_local! {
     static LOST_WAKEUPS: Cell<u64> = const { Cell::new(0) };
 }
